@@ -7,7 +7,7 @@
        add_learner, remove_node, apply_config_change, can_rejoin, new}`
       (`MembershipGuard::blocking_write` clones the state, runs the closure and stores the clone
        *whatever the closure returned* — a failing `BatchPromote` keeps its partial updates).
-  * d-engine-core/src/membership.rs `is_single_node_cluster` (= initial size 1), `ensure_safe_join`
+  * d-engine-core/src/membership.rs `is_single_node_cluster` (initial size 1 and no other voter), `ensure_safe_join`
   * d-engine-core/src/raft_role/leader_state.rs `calculate_safe_batch_size`, `is_learner_caught_up`,
       `handle_promote_ready_learners` (batch choice), `handle_join_cluster` (validation part)
   * d-engine-core/src/raft_role/learner_state.rs vote request handling / tick / membership applied
@@ -72,6 +72,10 @@ def voters (self : Nat) (ns : List Node) : List Node :=
 /-- `replication_peers()`: every other node with status Active / Promotable / ReadOnly. -/
 def replicationPeers (self : Nat) (ns : List Node) : List Node :=
   ns.filter fun n => n.id != self && (n.status == sActive || n.status == sPromotable || n.status == sReadOnly)
+
+/-- `Membership::is_single_node_cluster` (as of fix 16342b6): configured alone *and* still no other voter -/
+def isSingleNodeCluster (initialSize self : Nat) (v : View) : Bool :=
+  initialSize == 1 && (voters self v.nodes).isEmpty
 
 /-- `add_learner` -/
 def addLearner (v : View) (id status : Nat) : View × Option Err × String :=
